@@ -119,4 +119,19 @@ def runMsgs : List (Stores → Res × Stores) → Stores → Res × Stores
 
 def runProposal (fs : List (Stores → Res × Stores)) : Stores → Res × Stores := viaCache (runMsgs fs)
 
+/-- the message loop of the end-blocker as written: `err` is the result of the LAST executed message, so without the
+`break` a later success would hide an earlier failure -/
+def loopMsgs (brk : Bool) : List (Stores → Res × Stores) → Stores → Res → Res × Stores
+  | [], X, e => (e, X)
+  | f :: fs, X, _ =>
+    match f X with
+    | (.ok, X') => loopMsgs brk fs X' .ok
+    | (.err, X') => if brk then (.err, X') else loopMsgs brk fs X' .err
+
+/-- proposal execution as the regenerated facts describe it -/
+def runProposalWith (pe : ProposalExec) (fs : List (Stores → Res × Stores)) (S : Stores) : Res × Stores :=
+  match loopMsgs pe.breaksOnError fs S .ok with
+  | (e, X) =>
+    if pe.runsOnCache then (if e == .ok || !pe.writeGuardedByNoError then (e, X) else (e, S)) else (e, X)
+
 end FxVerif.Model.C16
